@@ -1,5 +1,6 @@
 """C06 FMD index — TB-2: the symbol iteration order of FMDIndex::backward_ext equals the complements of the index
 alphabet in ascending byte order (needed for the reverse-strand lower bound accumulation)."""
+import re
 from .mirlib import call_info, strip, walk, fmt
 from .c20 import table_from_initialiser
 
@@ -129,4 +130,15 @@ def run(facts, rep, ctx):
     # bi-interval extension rests on the sampled Occ table: its writer/reader agreement (rule SB-10 of C04) is part of this check
     from . import c04
     c04.run(facts, rep, ctx)
+
+
+_run_before_round4b = run
+
+
+def run(facts, rep, ctx):
+    """further rules added after the third seeding round (rules/round4.py)"""
+    _run_before_round4b(facts, rep, ctx)
+    from . import round4
+    sm = [b.path for b in facts.body_list if re.search(r'FMDIndex::<.*>::(smems|all_smems)$', b.path)]
+    round4.ri5(facts, rep, sm)
 
